@@ -310,11 +310,21 @@ def gen_ctrl(rng):
     else:
       aux = None
   steps = []
+  methods = rng.random() < 0.4    # reads through the Stream methods as well
   for _ in range(rng.randint(2, 12)):
-    if rng.random() < 0.5:
+    u = rng.random()
+    if u < 0.5:
       steps.append(("set", val()))
+    elif methods and u < 0.62:
+      steps.append(("peek", rng.choice([None, 1, 2, 3])))
+    elif methods and u < 0.72:
+      steps.append(("take", rng.choice([None, 1, 2, 4])))
+    elif methods and u < 0.78:
+      steps.append(("copy", rng.choice([0, 1, 3])))
     else:
       steps.append(("read", rng.choice([0, 1, 1, 1, 2, 3, 5])))
+  if methods:
+    steps.append(("take", rng.choice([None, 1, 3])))
   steps.append(("read", rng.randint(1, 3)))
   return ("ctrl", mode, val(), aux, tuple(steps))
 
@@ -626,6 +636,26 @@ def run_ctrl(ctx, case):
       if nread == 0:
         ctx.count("control:assigned-before-first-read")
       continue
+    if step[0] in ("peek", "take", "copy"):
+      # reads through the methods of the ControlStream itself: every one of
+      # them is a read of "the value most recently assigned" (a peek removes
+      # nothing - and must not freeze what later reads see)
+      n = step[1]
+      if step[0] == "copy":
+        cs.copy().take(n)          # a copy that reads ahead (not judged)
+        ctx.count("control:copy-read-ahead")
+        continue
+      got = cs.peek(n) if step[0] == "peek" else cs.take(n)
+      want = current if n is None else [current] * n
+      ctx.count("control:method-" + step[0])
+      same = (got is want) or (type(got) is type(want) and got == want)
+      if n is not None and same:
+        same = all((g is w) or type(g) is type(w) for g, w in zip(got, want))
+      if not same:
+        ctx.violation("control/%s-not-last-assigned" % step[0], case,
+                      mode=mode, got=got, want=want, last_assigned=current)
+        return True
+      continue
     n = step[1]
     if direct is not None and nread % 2:
       got = list(itertools.islice(direct, n))
@@ -703,6 +733,9 @@ def finish(ctx):
   ctx.need("control:assigned-before-first-read", 500)
   ctx.need("control:mode-direct", 500)
   ctx.need("control:mode-expression", 500)
+  ctx.need("control:method-peek", 300)
+  ctx.need("control:method-take", 300)
+  ctx.need("control:copy-read-ahead", 100)
 
 
 # extension family (bug hunt), see props/c16_x.py
